@@ -459,7 +459,24 @@ func (fe *frameEngine) analyze(fn *ssa.Function) bool {
 			case *ssa.Return:
 				for i, r := range x.Results {
 					if i < len(sum.returns) && pointerLike(r.Type()) {
-						if sum.returns[i].addAll(fe.valOrigins(r, get)) {
+						// the result and everything stored inside freshly allocated objects it is made of
+						reach := oset{}
+						var add func(os oset, depth int)
+						add = func(os oset, depth int) {
+							for o := range os {
+								if reach[o] {
+									continue
+								}
+								reach[o] = true
+								if o.kind == oFresh && depth < 6 {
+									if c, ok := cells[fe.siteVal(o)]; ok {
+										add(c, depth+1)
+									}
+								}
+							}
+						}
+						add(fe.valOrigins(r, get), 0)
+						if sum.returns[i].addAll(reach) {
 							changedSum = true
 						}
 					}
@@ -824,6 +841,18 @@ func cmdFrame(args []string) int {
 			ff := frameFinding{Entry: shortKey(fn.String()), Root: viol, Effect: w.o.String(), Chain: w.chain, Key: key}
 			findings = append(findings, ff)
 			groups[key] = append(groups[key], ff)
+		}
+		// results must not alias per-search state that has been handed back to the pool / slot
+		for i, rs := range s.returns {
+			for o := range rs {
+				if o.kind == oOwned {
+					bad++
+					key := "frame:result-aliases-pooled-state"
+					ff := frameFinding{Entry: shortKey(fn.String()), Root: "owned state escaping through result", Effect: fmt.Sprintf("result %d aliases %s", i, o.String()), Key: key}
+					findings = append(findings, ff)
+					groups[key] = append(groups[key], ff)
+				}
+			}
 		}
 		if bad == 0 {
 			clean++
